@@ -1,6 +1,6 @@
 (* Entry.v — executable entry points of the model, one per correspondence family:
    decode a case, run the model, encode the observable. *)
-From SLT Require Export Decode Runner Parser Unparse FsTrim Include Update Subst.
+From SLT Require Export Decode Runner Parser Unparse FsTrim Include Update Subst Framing.
 Open Scope N_scope.
 
 Definition e_event (e : event) : val :=
@@ -229,6 +229,21 @@ Definition update_case (v : val) : val :=
   let b := update_case_with true v in
   if val_eqb a b then a else VS (lit "oracle-miss").
 
+(* ---- family "frames": [chunks; number of calls; stream ends after the chunks?] (bytes) *)
+Definition e_fres (r : fres) : val :=
+  match r with
+  | Frame f => vtag "frame" [VS f]
+  | Eof => vtag "eof" []
+  | ErrRemaining => vtag "err-remaining" []
+  | Pending => vtag "pending" []
+  end.
+
+Definition frames_case (v : val) : val :=
+  vlist e_fres (nexts (get_b (arg 2 v)) (N.to_nat (get_n (arg 1 v))) [] (map get_s (get_l (arg 0 v)))).
+
+(* ---- family "request": sql -> the request text the driver writes *)
+Definition request_case (v : val) : val := VS (request_text (get_s v)).
+
 (* family dispatcher used by the extracted runner and by the vm_compute cross-check *)
 Definition model_main (fam : str) (v : val) : val :=
   if str_eqb fam (lit "run") then run_case v
@@ -237,4 +252,6 @@ Definition model_main (fam : str) (v : val) : val :=
   else if str_eqb fam (lit "trim") then trim_case v
   else if str_eqb fam (lit "file") then file_case v
   else if str_eqb fam (lit "update") then update_case v
+  else if str_eqb fam (lit "frames") then frames_case v
+  else if str_eqb fam (lit "request") then request_case v
   else VS (lit "unknown-family").
